@@ -4,6 +4,7 @@ Module implementing OFDM modulation and demodulation.
 """
 
 import math
+import operator
 from typing import Optional, Tuple
 
 import numpy as np
@@ -72,6 +73,14 @@ class OFDM:
         ValueError
             If the any of the parameters are invalid.
         """
+        # Any integer type is accepted (python int, numpy integer scalars
+        # of any width), but the parameters are stored as python ints so
+        # that index arithmetic cannot overflow a narrow numpy type. Non
+        # integers (floats, None for the sizes) raise TypeError here
+        # instead of leaving an unusable object behind.
+        fft_size = operator.index(fft_size)
+        cp_size = operator.index(cp_size)
+
         if (cp_size < 0) or cp_size > fft_size:
             msg = ("cp_size must be nonnegative and cannot be greater "
                    "than fft_size")
@@ -79,6 +88,7 @@ class OFDM:
 
         if num_used_subcarriers is None:
             num_used_subcarriers = fft_size
+        num_used_subcarriers = operator.index(num_used_subcarriers)
 
         if num_used_subcarriers > fft_size:
             msg = ("Number of used subcarriers cannot be greater than the "
